@@ -5,6 +5,7 @@ import numpy as np
 import torch
 
 from harness import coqio, nets
+from harness import protocols
 from harness.common import Check
 from harness.c12 import soft_gate
 from translate import dispatch as t_disp, ops as t_ops
@@ -68,6 +69,22 @@ def run(ck: Check):
                 if float(y32.min()) < -1e-6 or float(y32.max()) > 1 + 1e-6:
                     ck.disagree("soft training activation outside [0,1]", case, observed=[float(y32.min()), float(y32.max())],
                                 signature={"layer": "dense", "param": par, "what": "range"})
+                # a 0/1 batch stored in an integer or half dtype is the same batch (an exception is not a wrong value)
+                xbool = (torch.rand(5, n_in) > 0.5)
+                with torch.no_grad():
+                    yref = l(xbool.float())
+                for dt in (torch.int64, torch.int32, torch.uint8, torch.float16):
+                    try:
+                        with torch.no_grad():
+                            yv = l(xbool.to(dt))
+                    except Exception:
+                        ck.count("dtype_variant_rejected")
+                        continue
+                    ck.count("dtype_variant_checks")
+                    if float((yv.double() - yref.double()).abs().max()) > 1e-3:
+                        ck.disagree("soft training output on a 0/1 batch depends on the dtype the batch is stored in",
+                                    dict(case, dtype=str(dt)), expected=yref[0].tolist(), observed=yv[0].tolist(),
+                                    signature={"layer": "dense", "param": par, "what": "dtype"})
                 ld = l.double()
                 with torch.no_grad():
                     y = ld(x.double()).numpy()
@@ -160,6 +177,8 @@ def run(ck: Check):
                                 dict(case, maxdiff=float(np.max(np.abs(ref - y[b])))), signature={"layer": "conv2d", "param": "walsh", "what": "formula"})
                     break
         ck.count("conv_outputs_compared", int(np.prod(y.shape)))
+    # ---------------- a large batch (processing in pieces must not lose or corrupt rows)
+    protocols.large_batch_rows(ck, train=True)
     # ---------------- the Coq model itself: interval lemmas
     failed = coqio.interval_goals(ck, "c08itv", [(g[0], g[1], g[2], g[3]) for g in goals])
     ck.count("interval_lemmas", len(goals))
